@@ -156,11 +156,35 @@ func (e *Engine) lemmaObligation(l *Lemma) (*Oblig, error) {
 			}
 		}
 	}
+	fc.opaqueRec = l.Opaque
+	fc.collectApps = l.Opaque
 	req, ens, err := fc.lemmaInstance(l, binds)
 	if err != nil {
 		return nil, err
 	}
 	fc.assume(req)
+	if l.Opaque {
+		uenv := fc.newEnv(fc.cur)
+		uenv.callee = true
+		uenv.pkg = e.pkgByPath(l.Pkg)
+		for k, v := range binds {
+			uenv.binds[k] = v
+		}
+		for _, u := range l.Unfold {
+			if _, err := fc.specExpr(uenv, u); err != nil {
+				return nil, fmt.Errorf("unfold %q: %v", u, err)
+			}
+		}
+		fc.collectApps = false
+		seen := map[string]bool{}
+		for _, a := range fc.apps {
+			t := a.unfolding()
+			if !seen[t.S] {
+				seen[t.S] = true
+				fc.assume(t)
+			}
+		}
+	}
 	env := fc.newEnv(fc.cur)
 	env.callee = true
 	env.pkg = e.pkgByPath(l.Pkg)
